@@ -849,7 +849,13 @@ class C08(Prop):
           'entry points sym_setparent / sym_setpath are part of the entry-point grid; 250 threaded histories (two worker '
           'threads + the harness thread, scheduled step by step with hand-offs: scopes entered / left per thread, '
           'overlapping without being nested across threads, calls by each thread, all scopes left at the end and '
-          'every thread calling again); '
+          'every thread calling again); 300 histories on values SEALED BY THEIR CONSTRUCTOR (sealed=True on pg.Dict / '
+          'pg.List / objects, and a class with allow_symbolic_mutation=False) at any depth of the tree -- the built value '
+          'must be sealed down to its last symbolic descendant, every mutator is tried on the descendants; 300 histories '
+          'in which a node OF ANOTHER (85 %: deep-sealed) TREE is offered to a container of the tree -- item / attribute '
+          'assignment, append, extend, insert, update, setdefault, one-pair rebind, or the constructor of the container -- '
+          'then seal(False) / writes inside the received element / pop, del, clear, replacement on the receiving side: '
+          'the other tree keeps contents, flags and the sym_parent / sym_path of every node; '
           'plus an exhaustive grid: every entry point x {node, child, '
           'grandchild} x own flag x 9 scope stacks x accessor flag, and every mutating method found by '
           'introspection of the classes\' MRO. Non-trivial: the step addresses a node that is protected '
@@ -859,9 +865,13 @@ class C08(Prop):
       'cross-checked behaviourally by the exhaustive entry-point grid',
       'closed list of builtin list/dict mutators re-derived from the running interpreter by a behavioural probe',
       'modelled, not verified: bodies of the mutators (pre-checks, delegation order, rebind path resolution, '
-      'KeyPath ordering, slice.indices) tied by correspondence; value specs, insertion of symbolic nodes that '
-      'already have a parent (clone semantics: C07), use_value_spec, pickling (__setstate__/__init__) are outside '
-      'the model',
+      'KeyPath ordering, slice.indices) tied by correspondence; value specs, use_value_spec, pickling '
+      '(__setstate__/__init__) are outside the model; a symbolic node that already has a parent arrives in the model '
+      'as a copy of its sub-tree (trees are values there: sharing cannot be expressed, the oracle checks the links '
+      'of both trees through sym_parent / sym_path instead)',
+      'constructors: T-GUARD reads `if sealed: self.seal(True)` in List.__init__ / Dict.__init__ and, for Object, either '
+      'the same or the attribute Dict built with sealed=sealed (genCtorSealsDeep); the model of a constructed-sealed '
+      'value is constructSealed = sealT true',
       'a batched rebind stopped by a target that became sealed during the batch keeps its earlier pairs applied '
       '(the receiver is not protected; the property text demands the sealed value to be unchanged): modelled as '
       'the code does it, the oracle demands WritePermissionError and the sealed value unchanged',
